@@ -86,9 +86,35 @@ def real_bounds(node):
         return 'raise'
 
 
+class EvalTimeout(Exception):
+    pass
+
+
+class time_limit:
+    """wall-clock limit: simplification of random DAGs can fail to terminate (known findings of C01)"""
+
+    def __init__(self, seconds=20):
+        self.seconds = seconds
+
+    def _alarm(self, signum, frame):
+        raise EvalTimeout('evaluation exceeded %d s' % self.seconds)
+
+    def __enter__(self):
+        import signal
+        self.old = signal.signal(signal.SIGALRM, self._alarm)
+        signal.alarm(self.seconds)
+
+    def __exit__(self, *exc):
+        import signal
+        signal.alarm(0)
+        signal.signal(signal.SIGALRM, self.old)
+        return False
+
+
 def evaluate(node, args, simplify=False):
     ev = lib()[0]
-    return ev.eval_once(node, arguments={k: numpy.asarray(v) for k, v in args.items()}, _simplify=simplify, _optimize=simplify)
+    with time_limit(20):
+        return ev.eval_once(node, arguments={k: numpy.asarray(v) for k, v in args.items()}, _simplify=simplify, _optimize=simplify)
 
 
 def fms(*a):
@@ -668,7 +694,8 @@ def stream_expr(c):
         f = dict(x.split('=', 1) for x in a.split(';'))
         args = {'a%d' % m: (v[0] if g.args[m][2] is None else numpy.array(v, dtype=int)) for m, v in vals.items()}
         try:
-            rb = canon(node._intbounds)
+            with time_limit(20):
+                rb = canon(node._intbounds)
         except AssertionError:
             rb = 'raise'
         except Exception as e:
@@ -704,7 +731,8 @@ def stream_expr(c):
                 rlen, rlenb = 'scalar', 'scalar'
             else:
                 try:
-                    rlenb = canon(node.shape[0]._intbounds)
+                    with time_limit(20):
+                        rlenb = canon(node.shape[0]._intbounds)
                 except Exception:
                     rlenb = 'raise'
                 try:
@@ -790,7 +818,8 @@ def first_unsound(node, args):
         if not isinstance(sub, ev.Array) or sub.dtype != int: continue
         if any(isinstance(a, ev._LoopIndex) for a in sub.arguments): continue
         try:
-            lo, hi = sub._intbounds
+            with time_limit(20):
+                lo, hi = sub._intbounds
             with numpy.errstate(all='ignore'):
                 v = flat_ints(evaluate(sub, args))
         except Exception:
@@ -1074,7 +1103,8 @@ def stream_dag(c):
             # ---- integer range at every loop iteration
             if sub.dtype == int:
                 try:
-                    lo, hi = sub._intbounds
+                    with time_limit(20):
+                        lo, hi = sub._intbounds
                 except AssertionError:
                     stats['bounds-raise:' + cls] += 1; lo = None
                 except Exception as e:
@@ -1275,12 +1305,12 @@ def stream_func(c):
                 what = 'announced arguments %r do not match the arguments it was built from %r' % (announced, argspecs)
             else:
                 try:
-                    with numpy.errstate(all='ignore'):
+                    with numpy.errstate(all='ignore'), time_limit(30):
                         val = numpy.asarray(smp.eval(f, {n: args_all[n] for n in announced}))        # ONLY the announced arguments
                 except Exception as e:
                     val = None
                     try:
-                        with numpy.errstate(all='ignore'):
+                        with numpy.errstate(all='ignore'), time_limit(30):
                             smp.eval(f, args_all)
                         with_all = True
                     except Exception:
@@ -1290,19 +1320,22 @@ def stream_func(c):
                     else:
                         c.count('func-invalid-composition:' + type(e).__name__)   # e.g. numpy.greater on booleans: rejected when lowered
                 if val is not None:
+                  try:
                     nchecked += 1; c.traces += 1
                     c.case(('func', iround, f.shape, f.dtype.__name__, tuple(sorted(announced))), nontrivial=True)
                     if val.ndim != f.ndim + 1 or val.shape[1:] != f.shape: what = 'shape %r announced, %r delivered (after the point axis)' % (f.shape, val.shape[1:])
                     elif val.dtype.kind != kinds[f.dtype]: what = 'dtype %s announced, %s delivered' % (f.dtype.__name__, val.dtype)
                     else:
-                        with numpy.errstate(all='ignore'):
+                        with numpy.errstate(all='ignore'), time_limit(30):
                             val2 = numpy.asarray(smp.eval(f, {n: (v if n in announced else v + 1) for n, v in args_all.items()}))
                         if val2.shape != val.shape or not ((val2 == val) | ((val2 != val2) & (val != val))).all():
                             what = 'value changes with arguments that are not announced'
                     if what is None and f.dtype != bool and rng.random() < .3:
-                        with numpy.errstate(all='ignore'):
+                        with numpy.errstate(all='ignore'), time_limit(30):
                             integral = numpy.asarray(smp.integrate(f, {n: args_all[n] for n in announced}))
                         if integral.shape != f.shape: what = 'integral has shape %r, announced %r' % (integral.shape, f.shape)
+                  except EvalTimeout:
+                    c.count('func-eval-timeout')
             if what:
                 nbad[what.split()[0]] += 1
                 c.failing_input('function-metadata-wrong:' + type(f).__name__, 'function.Array %s: %s' % (type(f).__name__, what),
